@@ -269,7 +269,26 @@ func runWriterContract(r *vh.Rng) (string, string) {
 			cancel[i] = time.Duration(50+r.Intn(2500)) * time.Microsecond
 		}
 	}
-	res, wire := gocql.VerifRunWriter(coalesce, writeDelay, frames, start, cancel)
+	// watchdog only (the scenario takes milliseconds): a writer that never returns - e.g. parked for ever behind a
+	// semaphore that an earlier caller kept - must not hang the run; the campaign ends there (a broken tie unless a
+	// spec-backed line of this run is a concrete failing input)
+	type wcOut struct {
+		res  []gocql.VerifWriteResult
+		wire []byte
+	}
+	wch := make(chan wcOut, 1)
+	go func() {
+		res, wire := gocql.VerifRunWriter(coalesce, writeDelay, frames, start, cancel)
+		wch <- wcOut{res, wire}
+	}()
+	var res []gocql.VerifWriteResult
+	var wire []byte
+	select {
+	case o := <-wch:
+		res, wire = o.res, o.wire
+	case <-time.After(30 * time.Second):
+		return "fatal writer-contract scenario did not end within 30 s (a writer never returned)", "fatal"
+	}
 	var chunks []string
 	for len(wire) > 0 {
 		id := int(wire[0])
@@ -344,21 +363,45 @@ func main() {
 	// first 50 disagreements only).
 	// writer-level scheduling tier (wsched.go): the shutdown leg of both writers in every order with enqueues, ticks,
 	// flush results and cancellations. Templates first (deterministic), then the random walk.
+	// A scenario the harness cannot conduct (a command that should be executable is not, the process does not become
+	// quiescent, a frame is not where the template expects it) ends the campaign - what follows could not be trusted -
+	// but NOT the run: everything observed up to that point was observed in a sane state and is judged. The failure
+	// itself is an op line the model cannot answer (a broken tie, reported as such unless a spec-backed line of this
+	// run is a concrete failing input).
+	extra := map[string]interface{}{}
+	bail := func(msg string) {
+		fmt.Fprintln(os.Stderr, "c07:", msg)
+		for _, d := range deferred {
+			out.Case(d.op, d.ans, d.cls, true)
+		}
+		out.Case("harness-fatal "+strings.Join(strings.Fields(msg), " "), "fatal", "fatal", true)
+		extra["campaign_cut_short"] = msg
+		out.Close(extra)
+		os.Exit(0)
+	}
 	wcaseOut := func(c wcase) {
 		if c.cls == "fatal" {
-			fmt.Fprintln(os.Stderr, "c07:", c.sop)
-			os.Exit(3)
+			bail(c.sop)
 		}
 		out.Case(c.top, "accept", "wtrace", true)
 		deferred = append(deferred, schedCase{c.sop, c.ans, c.cls})
 	}
 	for ci := 0; ci < 4; ci++ {
 		conf := wconf{coal: ci%2 == 1, wt: ci/2 == 1, lens: []int{40, 25, 31}}
-		for kind := 0; kind < 3; kind++ {
+		for kind := 0; kind < 6; kind++ {
 			for mid := 0; mid <= 2; mid++ {
 				cutsT := []int{1, 8, 9, 10, 39}
 				if kind == 1 {
 					cutsT = []int{0, 5}
+				}
+				if kind == 4 {
+					cutsT = []int{0, 1, 9, 39}
+				}
+				if kind == 5 {
+					if !conf.wt {
+						continue
+					}
+					cutsT = []int{0, 9}
 				}
 				if tier == "thorough" {
 					cutsT = nil
@@ -371,10 +414,10 @@ func main() {
 					if tier == "thorough" {
 						kinds = errKinds
 					}
-					if kind == 2 {
+					if kind == 2 || kind == 4 {
 						kinds = append(kinds, "ok")
 					}
-					if kind == 1 {
+					if kind == 1 || kind == 3 || kind == 5 {
 						kinds = []string{"ok"}
 					}
 					for _, ek := range kinds {
@@ -412,8 +455,7 @@ func main() {
 					}
 					sop, ans, top, cls := runSizeTemplate(conf, totals, hold, kind)
 					if strings.HasPrefix(sop, "fatal") {
-						fmt.Fprintln(os.Stderr, "c07:", sop)
-						os.Exit(3)
+						bail(sop)
 					}
 					out.Case(top, "accept", "trace2", true)
 					if sop != "" {
@@ -483,8 +525,7 @@ func main() {
 		sc.hold = r.Intn(3) == 0 && sc.coalesce == 0
 		op, cls := runScenario(sc)
 		if strings.HasPrefix(op, "fatal") {
-			fmt.Fprintln(os.Stderr, "c07:", op)
-			os.Exit(3)
+			bail(op)
 		}
 		co := "direct"
 		if sc.coalesce > 0 {
@@ -497,15 +538,16 @@ func main() {
 	}
 	for i := 0; i < 150*mult; i++ {
 		op, cls := runWriterContract(r)
+		if cls == "fatal" {
+			bail(op)
+		}
 		out.Case(op, "accept", cls, true)
 	}
 	// vectored-write tier: the real writers over loopback TCP (writev path of net.Buffers.WriteTo)
-	extra := map[string]interface{}{}
 	for i := 0; i < 24*mult; i++ {
 		op, cls := runWritev(r)
 		if strings.HasPrefix(op, "fatal") {
-			fmt.Fprintln(os.Stderr, "c07:", op)
-			os.Exit(3)
+			bail(op)
 		}
 		if op == "" { // no loopback TCP here: the draws were made (same PRNG stream), the tier is skipped
 			extra["writev_tier_skipped"] = cls
@@ -522,8 +564,7 @@ func main() {
 		conf := sconf{proto: []int{4, 3, 2}[r.Intn(3)], coal: i%2 == 1, wt: (i/2)%2 == 1}
 		sop, ans, top, cls := runSched(r, conf)
 		if strings.HasPrefix(sop, "fatal") {
-			fmt.Fprintln(os.Stderr, "c07:", sop)
-			os.Exit(3)
+			bail(sop)
 		}
 		out.Case(top, "accept", "trace2", true)
 		if sop != "" {
@@ -554,8 +595,7 @@ func main() {
 					}
 					sop, ans, top, cls, ok := runTemplate(conf, cf, o, kind)
 					if strings.HasPrefix(sop, "fatal") {
-						fmt.Fprintln(os.Stderr, "c07:", sop)
-						os.Exit(3)
+						bail(sop)
 					}
 					if !ok {
 						if tier == "thorough" {
@@ -597,8 +637,7 @@ func main() {
 					for _, kind := range kinds {
 						sop, ans, top, cls, ok := runTemplate(conf, cf, o, kind)
 						if strings.HasPrefix(sop, "fatal") {
-							fmt.Fprintln(os.Stderr, "c07:", sop)
-							os.Exit(3)
+							bail(sop)
 						}
 						if !ok {
 							continue
